@@ -1,5 +1,7 @@
 //! Implementation of the Prefix Map.
 
+use std::sync::atomic::Ordering;
+
 use crate::{
     inner::{Direction, DirectionForInsert, Node, Table},
     Prefix,
@@ -19,7 +21,6 @@ pub use iter::*;
 pub struct PrefixMap<P, T> {
     pub(crate) table: Table<P, T>,
     free: Vec<usize>,
-    count: usize,
 }
 
 impl<P, T> Default for PrefixMap<P, T>
@@ -30,7 +31,6 @@ where
         Self {
             table: Default::default(),
             free: Vec::new(),
-            count: 0,
         }
     }
 }
@@ -47,13 +47,13 @@ where
     /// Returns the number of elements stored in `self`.
     #[inline(always)]
     pub fn len(&self) -> usize {
-        self.count
+        self.table.count()
     }
 
     /// Returns `true` if the map contains no elements.
     #[inline(always)]
     pub fn is_empty(&self) -> bool {
-        self.count == 0
+        self.table.count() == 0
     }
 
     /// Get the value of an element by matching exactly on the prefix.
@@ -361,7 +361,7 @@ where
                         inc = 1;
                     }
                     node.value = Some(value);
-                    self.count += inc;
+                    self.table.counter().fetch_add(inc, Ordering::Relaxed);
                     return old_value;
                 }
                 DirectionForInsert::NewLeaf { right } => {
@@ -417,10 +417,12 @@ where
             match self.table.get_direction_for_insert(idx, &prefix) {
                 DirectionForInsert::Enter { next, .. } => idx = next,
                 DirectionForInsert::Reached if self.table[idx].value.is_some() => {
+                    let (node, count) = self.table.node_and_counter(idx);
                     return Entry::Occupied(OccupiedEntry {
-                        node: &mut self.table[idx],
+                        node,
+                        count,
                         prefix,
-                    })
+                    });
                 }
                 direction => {
                     return Entry::Vacant(VacantEntry {
@@ -515,7 +517,7 @@ where
 
         // decrease the count if the value is something
         if value.is_some() {
-            self.count -= 1;
+            self.table.counter().fetch_sub(1, Ordering::Relaxed);
         }
 
         value
@@ -595,7 +597,7 @@ where
             left: None,
             right: None,
         });
-        self.count = 0;
+        self.table.counter().store(0, Ordering::Relaxed);
     }
 
     /// Keep only the elements in the map that satisfy the given condition `f`.
@@ -772,7 +774,7 @@ where
                 to_free.push(right)
             }
             self.free.push(idx);
-            self.count -= dec;
+            self.table.counter().fetch_sub(dec, Ordering::Relaxed);
         }
     }
 
@@ -781,7 +783,7 @@ where
     #[inline(always)]
     fn new_node(&mut self, prefix: P, value: Option<T>) -> usize {
         if value.is_some() {
-            self.count += 1;
+            self.table.counter().fetch_add(1, Ordering::Relaxed);
         }
         if let Some(idx) = self.free.pop() {
             let node = &mut self.table[idx];
@@ -821,7 +823,7 @@ where
 
         // decrease the number of elements if value is something
         if value.is_some() {
-            self.count -= 1;
+            self.table.counter().fetch_sub(1, Ordering::Relaxed);
         }
 
         if has_left && has_right {
